@@ -712,7 +712,8 @@ PROPS = {
              "random and see a ServerHello or the end of the stream; 5 (10) quiche clients per list complete the QUIC handshake and ask "
              "for a health check (served, or dropped before any request); the verdict is compared with the model for peer 127.0.0.1 "
              "and the random actually used"
-             " Also 3 (thorough 8) hellos per rule list spread over two TLS records (cut after 4, 20, 39 bytes): the endpoint's look at the first record cannot determine the random, the model is asked with the random unavailable - lists with a random pattern fail closed",
+             " Also 3 (thorough 8) hellos per rule list spread over two TLS records (cut after 4, 20, 39 bytes): the endpoint's look at the first record cannot determine the random, the model is asked with the random unavailable - lists with a random pattern fail closed"
+             " Two rule lists look only at the end of the 32-byte random (a bit of byte 28; of byte 31, as an allow rule before a catch-all deny): on QUIC too the pattern is compared with the whole random",
         explanation="theorems first_match_wins, default_allow, fail_closed_without_random, prefix/mask semantics, "
                     "malformed_never_matches, mapped_peer_eq_v4_peer, deny_precedes_handshake about TT/Model/Rules.lean",
         trusted=["ipnet CIDR parsing and hex::decode (the harness passes parsed CIDRs to the model; hex decoding is modelled)",
@@ -739,7 +740,8 @@ PROPS = {
              "client sent, and SSL_get_client_random of the QUIC client's own handshake; 14 (thorough 30) rustls clients whose ClientHello "
              "message is spread over two TLS records (cut inside the handshake header, inside and right after the random, later): the "
              "rules must be given the true random or none (`None`, so that random rules fail closed) - never another value"
-             " The read loop also gets streams that end before the first record is complete (cut after 0, 1, 4, 5, 9, 43, 44 bytes, in the middle, one byte short): it must return at once with the random absent and the bytes replayed",
+             " The read loop also gets streams that end before the first record is complete (cut after 0, 1, 4, 5, 9, 43, 44 bytes, in the middle, one byte short): it must return at once with the random absent and the bytes replayed"
+             " Five clients deliver their hello with the following segment 250 - 700 ms late (a retransmission): still the hello's random",
         explanation="theorems extract_exact, prefix_needs_more, found_is_the_field, loop_segmentation_invariant, "
                     "loop_absent_never_wrong, loop_conserves, replay_transparent/complete about TT/Model/ClientHello.lean",
         trusted=["tls-parser 0.12 record/handshake/ClientHello walk as transcribed; exactness claimed for records whose first handshake "
@@ -891,7 +893,8 @@ PROPS = {
              "the multiplexer's deadline table (arm, remove, loop iteration with what expired and what quiche asked to re-arm) and the "
              "state it left; the Lean model TT.QuicTimers replays the operations and must reach the same deadline table and "
              "closest_deadline after each one; the two invariants are also checked directly on the recorded states"
-             " Directed histories of half-closed tunnels with steady traffic in the other direction (see C02); theorems half_closed_not_early / half_closed_transfer_restarts",
+             " Directed histories of half-closed tunnels with steady traffic in the other direction (see C02); theorems half_closed_not_early / half_closed_transfer_restarts"
+             " Idle tunnels as the client sees them (in c14live): CONNECT over the real HTTP/1.1 and HTTP/2 codecs through the real direct forwarder to a loopback origin that stays silent, T = 500 ms, with one relayed byte or none: the client's connection (h1) / stream (h2) must end between T and 2T + slack after the last byte, and the origin's connection with it",
         explanation="theorems idle_not_early, idle_bound_2T, progress_at_deadline_keeps_open, wf_step about the Timer model of "
                     "TT/Model/Pipe.lean; establishment_timeout_reported, establishment_in_time_connected, "
                     "establishment_timeout_destination_independent about TT.Dispatch.handle (the request path model of C10); "
@@ -981,7 +984,8 @@ PROPS = {
         retry_on_failure=True,
         suites=["c01", "c01h3"],
         judge=judge_c01,
-        level="proof",
+        level="proof"
+             " The registry has a client with a mixed-case name (Alice / S3cret); the Proxy-Authorization pool has the pair as configured and re-cased / padded spellings of it and of user:pass (alice, ALICE, s3cret, User, 'pass ')",
         rule='sessions over the real Http1Codec (1 request) and Http2Codec (1-3, thorough 1-5 concurrent streams) on in-memory transports through the real Core::on_tunnel_request / Tunnel / HttpDownstream with a scripted forwarder injected at Core::make_forwarder: authenticator {none, registry of 2 clients, scripted accepting one token and one SNI}, SNI credentials {none, accepted, rejected}, methods {CONNECT, GET, POST, OPTIONS, HEAD}, 19 authorities (reserved names, look-alikes differing by case / suffix / port, literals v4/v6 with and without port, names with and without port, bad port), 13 Proxy-Authorization forms (absent, two valid, wrong password / user, Bearer, lower-case scheme, no space, bad base64, non-UTF-8, empty, empty token, trailing space), 13 connect outcomes (ok, refused, unreachable, timed out, 310, 311, resolver failure, EMFILE, other, upstream auth failure, completion at D-1 / D / D+1 ms under the paused clock), UDP/ICMP multiplexer failures; per request status, X-Warning code, challenge, X-Adguard-Vpn-Error and the multiset of forwarder calls are compared with the Lean session model'
              ' HTTP/3 part (suite c01h3, wall clock): 150 (thorough 1200) sessions of 1-3 concurrent request streams through the real Core::listen on a loopback UDP port (QUIC multiplexer, HTTP/3 codec, Tunnel, HttpDownstream; quiche client of the harness; SNI credentials travel as <credentials>.localhost in the QUIC ClientHello), same authenticators, authorities, Proxy-Authorization forms and immediate connect outcomes, same query format and model',
         explanation="theorems gate_sound, policy_authenticated_only_if_accepted, registry_accepts_iff, reject_is_407_no_egress, "
@@ -1004,7 +1008,8 @@ PROPS = {
              " Plus 90 CONNECTs (names, IPv4 and IPv6 literals, HTTP/1.1 and HTTP/2) through the real SOCKS5 forwarder (suite c10socks, real "
              "sockets) whose loopback upstream answers the request with every reply code 0..9, with REP bytes that are none (0x10, 0x7f, "
              "0xff), with a reply of version 4, or closes: exactly one final response, status and warning compared with socksOutcome."
-             " HTTP/3 part (suite c10h3, wall clock): 150 (thorough 1200) sessions of 1-3 concurrent request streams through the real Core::listen on a loopback UDP port (QUIC multiplexer, HTTP/3 codec, Tunnel, HttpDownstream; quiche client of the harness; SNI credentials travel as <credentials>.localhost in the QUIC ClientHello), same authenticators, authorities, Proxy-Authorization forms and immediate connect outcomes, same query format and model",
+             " HTTP/3 part (suite c10h3, wall clock): 150 (thorough 1200) sessions of 1-3 concurrent request streams through the real Core::listen on a loopback UDP port (QUIC multiplexer, HTTP/3 codec, Tunnel, HttpDownstream; quiche client of the harness; SNI credentials travel as <credentials>.localhost in the QUIC ClientHello), same authenticators, authorities, Proxy-Authorization forms and immediate connect outcomes, same query format and model"
+             " HTTP/1.1 CONNECTs are sent authority-form, origin-form (`CONNECT /` with the authority in Host) and absolute-form: the destination is the same authority - without a port it is refused whatever the form",
         explanation="theorems exactly_one_final, codes_documented, outcome_codes, socks_upstream_codes, connect_result, reserved_never_resolved, "
                     "lookalikes_are_hosts, connect_without_port_refused, health_and_mux_accepted about TT/Model/Dispatch.lean with "
                     "statusOf / warnOf / reserved names regenerated from http_downstream.rs on every run",
@@ -1119,7 +1124,8 @@ PROPS = {
              "a loopback origin: Content-Length, chunked and close-delimited responses of 0-40000 bytes after 0-2 interim heads, in 3 "
              "segmentations, a client that takes everything or 300 bytes per read; checked: the request the origin saw (line, Host, end-to-"
              "end headers, no Proxy-Authorization, body), status, X-A header, no hop-by-hop header, exact body, clean end of the stream"
-             " Response heads with 31, 32, 33, 63, 64, 65, 100, 127, 128, 129, 200 header lines (whole and cut in the middle, client accepting 3 bytes first): the model refuses above `responseHeaderCapacity` = 128 (constants regenerated from the code), the implementation must answer and not spin (every scripted run is watched)",
+             " Response heads with 31, 32, 33, 63, 64, 65, 100, 127, 128, 129, 200 header lines (whole and cut in the middle, client accepting 3 bytes first): the model refuses above `responseHeaderCapacity` = 128 (constants regenerated from the code), the implementation must answer and not spin (every scripted run is watched)"
+             " A third of the generated requests repeat a header name on two or three lines (all must be forwarded)",
         explanation="theorems segmentation_and_backpressure_independent, independent_after_origin_close, delivery_monotone, "
                     "chunked_body_delivered_exactly, content_length_body_delivered_exactly, close_delimited_body_delivered_exactly, "
                     "bodiless_response_ends_with_head, head_204_304_are_bodiless, interim_response_is_transparent, "
@@ -1184,7 +1190,8 @@ PROPS = {
              "stream ended), the speedtest table on the tunnel host's /speed path and on the speedtest host (status and exact body "
              "length compared with the model; 17 and 100 MiB in the thorough tier), reverse proxy through the path mask and on the "
              "reverse-proxy host (the origin must see the request line, X-Original-Protocol: http3 and the end-to-end header; the client "
-             "the origin's status, header and body)",
+             "the origin's status, header and body)"
+             " The reverse-proxy clients send an X-Original-Protocol header of their own naming another protocol: the origin must see exactly one, the endpoint's",
         explanation="theorems demux_precedence, download_accept_iff, download_exact, download_completes, upload_accept_iff, else_400, "
                     "post_other_path_400, upload_done, upload_counts, x_original_protocol_present about TT/Model/Services.lean",
         trusted=["Rust's u32 FromStr as modelled by parseU32 (optional '+', digits, range)", "http crate Uri::path()",
@@ -1208,7 +1215,8 @@ PROPS = {
              "(d) the same over HTTP/3: 21 connections (3 SNI-credential situations x 7 header sets) to the real QUIC listener, each "
              "carrying the 10 request kinds and ping / speedtest / reverse-proxy requests as concurrent streams, the QUIC multiplexer's "
              "and quiche's own log lines included in the search, plus one request per connection that the endpoint rejects while building it "
-             "(secret-bearing headers under invalid field names)",
+             "(secret-bearing headers under invalid field names)"
+             " Reverse-proxy requests (path mask + Upgrade) on connections that authenticated by SNI (accepted / rejected credentials / none), without a Host header, with one, with an absolute target",
         explanation="theorems scrub_request_hides (non-interference), scrubbed_values_are_placeholders, scrub_keeps_other_headers, "
                     "scrub_adds_nothing, scrub_sni_hides_label, meta_debug_hides_creds about TT/Model/Scrub.lean; all_log_sites_clean over the "
                     "regenerated TT/Gen/LogSites.lean",
